@@ -951,3 +951,178 @@ entry("C06", modules=["contracts.c09_labels"],
                   "(mode, ng, parametrised) request raises ValueError or reaches exactly one implementation with the "
                   "effective contract value of the mode table, G conjugated iff dagger, transpose = transpose or dagger, "
                   "receiver untouched unless inplace.")
+
+
+_C20 = "quimb/calc.py"
+_C20A = "quimb/linalg/approx_spectral.py"
+entry("C20", modules=["contracts.c20_calc"],
+      E1=[f"{_C20}::{_f}" for _f in (
+          "check_dims_and_indices", "mutinf_subsys", "mutinf", "schmidt_gap", "partial_transpose_norm", "logneg", "negativity",
+          "logneg_subsys", "one_way_classical_information", "quantum_discord", "correlation", "qid", "ent_cross_matrix",
+          "simulate_counts", "dephase", "kraus_op", "projector", "measure", "purify", "concurrence")] +
+         [f"{_C20A}::gen_bipartite_spectral_fn.bipartite_spectral_fn", f"{_C20A}::lazy_ptr_linop", f"{_C20A}::lazy_ptr_ppt_linop"],
+      LEMMAS=True,
+      PROVIDERS=["contracts.c20_calc.provider_fdx"],
+      TRUSTED=[
+          "leaf ptr(p, dims, keep): the reduced state of p on the SET of subsystems `keep` of `dims`, subsystems ordered by "
+          "increasing index (the order of `keep` is immaterial; position r of the result is the r-th smallest kept index); "
+          "int2tup / `in` / tuple concatenation read and combine subsystem sets by membership [bounded: driver C20, C15]",
+          "leaves entropy, entropy_subsys, tr_sqrt, tr_sqrt_subsys, logneg_subsys_approx, eigvalsh, norm_trace_dense, "
+          "partial_transpose (own contract in C15), ikron (C15), expec, dot, kron (`&`), tr, eye, purify, pauli, bloch_state, "
+          "scipy minimize, array_contract / np.einsum, Tensor / `&` / aslinearoperator: uninterpreted symbols applied to the "
+          "canonical encoding of their arguments (what they compute is decided by the bounded drivers); eigvalsh(rho, k=2) "
+          "returns min(2, size) eigenvalues",
+          "quantum-state facts used ONLY as hypotheses of post-conditions (never derived): (P1) for a pure state a spectral "
+          "function of the reduced state of X equals that of the complement of X (Schmidt decomposition), (P2) a subsystem "
+          "of dimension 1 can be added to / removed from X, (P3) the entropy of the reduced state of no subsystem is 0; the "
+          "pure-bipartition identity ||rho^T_A||_1 = (tr sqrt rho_A)^2 and the symmetry of the measures under A <-> B",
+          "index calculus: a contraction (einsum subscripts / array_contract labels / tensor-network labels) is identified "
+          "with its canonical form (operands ordered by tensor, labels renamed by first occurrence); einsum's implicit "
+          "output = labels occurring once, alphabetically; einsum('aa->a', M) is a writeable view of the diagonal",
+          "numpy leaves: np.argwhere(mask) lists the true positions in increasing order (instances at the skolem column); "
+          "np.random.choice returns elements of its pool (distinct when replace=False); rng.choice(d, size=C, p=) returns C "
+          "integers of range(d); toolz frequencies / keymap (counts per value; keys relabelled); python's format "
+          "mini-language for one integer field ('{:0>Wb}': fill, alignment, width, base 2/8/10/16)",
+          "skolem arguments: ent_cross_matrix is proved for ONE arbitrary pair of blocks / ONE arbitrary entry of the "
+          "upscaled array, projector for ONE arbitrary column; the induction principle for their loop invariants",
+          "monomial bookkeeping of products of dimensions (prod, products and exact quotients of monomials); the side "
+          "condition dividend == divisor * quotient is an emitted obligation (enc)",
+          "fdx: pauli_decomp is linear in its operator argument (expec is linear), so the 4**n matrix units decide every "
+          "operator; textbook Pauli matrices written down in the contract module; the stubs replacing `correlation` / "
+          "`pauli` inside pauli_correlations record their arguments faithfully",
+          "E4: 2**-n is 1 / 2**n with 2**n defined by its recurrence (lemmas pow2-positive-base / -step; the induction "
+          "principle on n)"],
+      ASSUMPTIONS=[
+          "STRUCTURE BOUND (value-unbounded): the number of subsystems K is fixed per case and all dimensions (>= 1), "
+          "thresholds, ranks and scalar parameters are symbolic: bipartite_spectral_fn, schmidt_gap, mutinf, "
+          "partial_transpose_norm K<=4 with every (non-empty) subset A; mutinf_subsys, logneg_subsys K<=4 with every pair of "
+          "disjoint non-empty subsets (A, B); lazy_ptr_linop K<=4 / lazy_ptr_ppt_linop K<=4 with sorted and reversed index "
+          "tuples; kraus_op K<=3 with every ordered tuple `where`; quantum_discord K<=4 with symbolic sysa != sysb; "
+          "correlation 2-3 sites; qid <= 3 indices; check_dims_and_indices <= 2+2 indices; ent_cross_matrix: block size 1..3 "
+          "concrete, number of sites SYMBOLIC (all sz_p); projector / measure: spectrum of SYMBOLIC size n; simulate_counts: "
+          "n <= 3 sites, phys_dim SYMBOLIC; dephase: dimension d SYMBOLIC.  Larger K: bounded run-time contracts only",
+          "subsystem-set arguments are abstracted to their membership (any int / tuple / order); the order-sensitive "
+          "arguments (quantum_discord's sysa, sysb; kraus_op's where; the lazy operators' index tuples) are kept as ordered "
+          "data; A and B disjoint and non-empty; indices in range (check_dims_and_indices raises otherwise: own contract)",
+          "floats are reals: an integer rand_rank and the float of the same value are distinguished by KIND (case), as "
+          "python's isinstance does; dephase float kind: the proportion means int(rand_rank * d) clamped to 1..d",
+          "KNOWN FAILURES on the unchanged tree (real defects, kept): schmidt_gap index obligation when A has total "
+          "dimension 1 and B not (C20-c); simulate_counts label base (E1 and fdx, C20-e); dephase integer rand_rank = 1 "
+          "(C20-f); quantum_discord first / measured party vs (sysa, sysb) (C20-g); correlation(sparse=True, dense "
+          "operators covering the whole system) on the fdx grid (C20-k)",
+          "NOT under contract (discrete part trivial or numerical): fidelity, entropy, tr_sqrt, trace_distance, the Wootters "
+          "formula inside concurrence (only its input state is under contract), partial_transpose (contract in C15), decomp's "
+          "body (fdx on the Pauli instance instead), bell_decomp beyond its bindings, pauli_correlations' body (fdx with "
+          "stubbed callee), the Lanczos routines, is_degenerate, page_entropy, heisenberg_energy",
+          "fdx grids: simulate_counts phys_dim 2..5 with phys_dim**n <= 125 (thorough 256), every basis state as ket and "
+          "projector; pauli_decomp n <= 3; pauli_correlations tuples of <= 2 (thorough 3) operator pairs on 3 sites; "
+          "correlation dims in {1,2,3}^2, {1,2}^3 (thorough {1,2,3}^3) of total dimension > 1, every ordered site pair, "
+          "sparse in {None, False, True}, dense / csr operators, ket / operator"],
+      BOUNDED_FOR={"schmidt_gap": ["schmidt_gap"], "simulate_counts": ["simulate_counts"], "dephase": ["dephase"],
+                   "quantum_discord": ["quantum_discord"], "correlation": ["correlation"], "mutinf_subsys": ["mutinf_subsys"],
+                   "mutinf": ["mutinf"], "logneg_subsys": ["logneg_subsys"], "ent_cross_matrix": ["ent_cross_matrix"],
+                   "kraus_op": ["kraus_op"], "projector": ["projector"], "measure": ["measure"], "qid": ["qid"],
+                   "lazy_ptr_linop": ["lazy_ptr_linop"], "lazy_ptr_ppt_linop": ["lazy_ptr_linop"],
+                   "bipartite_spectral_fn": ["entropy_subsys"], "decomp": ["pauli_decomp"],
+                   "pauli_correlations": ["pauli_correlations"]},
+      EXPLANATION="E1 (discrete skeleton; structure-bounded, value-unbounded): which subsystems every shortcut traces out, "
+                  "how they are renumbered and which dims are handed on -- bipartite_spectral_fn / schmidt_gap / "
+                  "partial_transpose_norm work on A or its complement (constant only when a side is trivial, approximate "
+                  "route iff the threshold is reached by the chosen side), mutinf(_subsys) = S(A)+S(B)-S(AB) of the same "
+                  "state and dims with the options passed on, logneg_subsys hands logneg the kept dims in index order and "
+                  "A's positions among the kept, quantum_discord's pair state with sysa first and sysb measured (FAILS: "
+                  "C20-g), one_way_classical_information measures the second party, correlation / qid embed each operator "
+                  "at its own site, ent_cross_matrix block arithmetic for ALL numbers of sites (skolem pair / entry, array "
+                  "accesses in range, upscaling), simulate_counts draws C samples of range(phys_dim**n) with the Born "
+                  "probabilities and labels them in base phys_dim with n digits (base FAILS: C20-e), dephase reads an integer "
+                  "rand_rank as a count and a float as a proportion (FAILS for the integer 1: C20-f), kraus_op's two "
+                  "contractions as index calculus for every ordered `where`, projector includes exactly the columns within "
+                  "tol once (all n), measure pairs probability / eigenvalue / projector / normalisation, the lazy partial-trace "
+                  "operators sum exactly the traced axes and transpose exactly A; schmidt_gap reads a second eigenvalue that "
+                  "does not exist when A is trivial (FAILS: C20-c).  fdx / E4: simulate_counts labels on every basis state, "
+                  "pauli_decomp enumerates every Pauli string once with coefficient tr(Pa)/2^n (matrix units, n<=3; "
+                  "normalisation * 2^n == 1 for all n), pauli_correlations letter/site pairing, correlation with the real "
+                  "ikron on a complete small grid (sparse=True with dense operators covering the system FAILS: C20-k).")
+
+
+# ---- C08, second part: the remaining record-threading carriers and the MPS circuit classes (contracts/c08_more.py) ----
+_C08C, _C08K, _C08G = "quimb/tensor/circuit/mps.py", "quimb/tensor/circuit/core.py", "quimb/tensor/circuit/gates.py"
+entry_extend(
+    "C08", modules=["contracts.c08_more"],
+    E1=[f"{_C08}::MatrixProductState.{m}" for m in (
+        "schmidt_values", "entropy", "schmidt_gap", "bipartite_schmidt_state", "local_expectation_canonical",
+        "compute_local_expectation_canonical", "measure", "sample_configuration", "sample", "gate_split",
+        "gate_with_auto_swap", "gate_with_submpo", "gate_nonlocal")]
+    + [f"{_C08}::gate_TN_1D", f"{_C08}::TensorNetwork1DVector.gate",
+       f"{_C08G}::apply_swap", f"{_C08G}::_apply_controlled_gate_mps", f"{_C08G}::apply_controlled_gate",
+       f"{_C08K}::CircuitBase._apply_gate"]
+    + [f"{_C08C}::CircuitMPS.{m}" for m in ("local_expectation", "fidelity_estimate", "sample", "get_psi", "apply_gates",
+                                            "partial_trace")]
+    + [f"{_C08C}::CircuitPermMPS.{m}" for m in ("_apply_gate", "local_expectation", "sample")]
+    + [f"{_C08C}::CircuitMPSLazy.{m}" for m in ("_compress", "_apply_gate", "local_expectation", "fidelity_estimate",
+                                                "get_psi", "sample")],
+    TRUSTED=[
+        "leaf: gate_inds(G, (ind a, ind b), contract='split', absorb=...) on adjacent sites touches only the tensors of a "
+        "and b; absorb='right' leaves the tensor of a an isometry towards b, 'left' the tensor of b an isometry towards a, "
+        "'both'/None neither [C05 split leaf, DESIGN 1.5]",
+        "leaf: tensor_network_1d_compress(region or whole chain, inplace=True) leaves the region in canonical form with the "
+        "centre at its first site (last if sweep_reverse), contracts every lazily attached operator tensor of the region in "
+        "and touches nothing outside the region [DESIGN C08 *A*]",
+        "leaf: gate_with_op_lazy_(mpo) changes (attaches tensors to) the sites min(sites)..max(sites) of the operator only; "
+        "partition(site tags, which='any', inplace=True) / `psi |= sub` split a site range off and put it back",
+        "leaf: the generic TensorNetworkGenVector.gate(contract=True) on ONE site changes that site's tensor only, keeps its "
+        "isometry flags iff the gate is unitary, and does not interpret the canonical-form record",
+        "leaf: isel_ / modify(data=...) / reindex_ on one site tensor change that tensor only (its flags are dropped); "
+        "`tn ^= slice(a, a+2)` and contract_tags_([tag i, tag i+1]) merge two adjacent site tensors into one carrying both "
+        "tags (no isometry claim for it); retag_ moves one tensor to the neighbouring (vacated) site tag",
+        "leaf: Circuit._maybe_convert (dtype / backend conversion), clear_storage, warnings, array / random-namespace "
+        "calls (sum, real, choice, default_rng, stack, ...) do not change which site tensors are isometries",
+        "MPS.copy() yields a distinct object with the same isometry flags; dict.copy() of the record a distinct dict",
+    ],
+    ASSUMPTIONS=[
+        "c08_more re-registers three c08_mps contracts by subclasses that only add kinds / clauses / callee use: "
+        "canonicalize (info=None: the post-condition speaks about the private witness record), singular_values (record = "
+        "(i,i), exact raise condition, frame), partial_trace_to_dense_canonical (info absent / {}, three-site where, record "
+        "inside where, frame)",
+        "domains: sites / bonds / qubits on the chain (0 <= site < L; measure(remove=True) needs L >= 2; sample* need L >= 1); "
+        "`terms` of compute_local_expectation_canonical: symbolic number of items, all keys of one kind per case (int | pair | "
+        "triple of sites on the chain), the sort only permutes them (its key function is evaluated on an arbitrary item for "
+        "definedness); sub-MPO support = `where` when `where` is given",
+        "the dict comprehension of compute_local_expectation_canonical is cut with an invariant by a loop rule written in the "
+        "contract (on_dictcomp: init / arbitrary iteration / step; complete split on 'first iteration or later' because the "
+        "record changes kind with the first term); the comprehension body is the real expression",
+        "measure(remove=True): the renumbering loop is proved with a skolem row (flags of one arbitrary site k and of k+1); "
+        "ghost `gap` tracks which site tag is vacated / shared so that retag_ never overwrites a live tensor and _L is only "
+        "reduced after the renumbering",
+        "gate_split has no record parameter: promised are the frame, the isometry by `absorb`, and the derived record rule (if "
+        "the centre was inside {a,b} before, the stated new record is sound) -- nothing about records whose centre is elsewhere",
+        "gate_with_submpo / gate_nonlocal with method='lazy' (and gate_TN_1D routing there) do not interpret the record: "
+        "promised are record untouched, only the operator's span changes, sound if the span lies inside the record; the "
+        "operator is left pending (ghost) until a compression",
+        "gate_TN_1D / TensorNetwork1DVector.gate / CircuitBase._apply_gate: only the contract modes that keep MPS form "
+        "('auto-mps', 'swap+split', 'nonlocal', True on one site); a ONE-site gate takes the generic route, which does not "
+        "interpret the record: soundness is promised if the gate is unitary or the site lies inside the recorded range "
+        "(DESIGN C08 domain note); 'swap+split' with more than two sites raises ValueError before anything is touched "
+        "(so CircuitPermMPS rejects 3-qubit gates); controlled gates = one control + one target, and in 'swap+split' mode "
+        "apply_controlled_gate raises ValueError (nothing touched)",
+        "circuit classes: tag_gate_* options off (the MPS circuit defaults); record kinds {} / None / pair (the library never "
+        "writes 'calc' there); class invariant = same _psi object, same shared record dict, N = L, and -- unless a lazily "
+        "attached operator is pending -- record in range and Sound(record, _psi); CircuitMPSLazy additionally: pending => "
+        "some site counter is set (ghost `nonempty`; exact counts are a policy); the accessors of CircuitMPS require that "
+        "nothing is pending; fidelity_estimate additionally requires an ORDERED pair (it reads the record raw) -- every "
+        "record the library writes is ordered, but that is not part of the proved invariant",
+        "CircuitPermMPS: `qubits` is a permutation of range(N) (index() returns a site, distinct qubits distinct sites); that "
+        "the permutation matches the state is C07's matter; one-qubit gates are assumed unitary in the CircuitPermMPS / "
+        "CircuitMPSLazy contracts (the physical site is internal)",
+    ],
+    EXPLANATION="E1 second part (c08_more): schmidt_values / entropy / schmidt_gap / bipartite_schmidt_state (record (i,i), "
+                "ValueError exactly off the inner bonds, nothing touched then), local_expectation_canonical, "
+                "compute_local_expectation_canonical (inplace=False: caller's record and receiver unchanged; invariant over "
+                "the terms), measure (all get / remove / inplace kinds; remove shifts the ghost arrays; record = "
+                "min(site, L'-1) as documented), sample_configuration / sample (record of self only read), gate_split "
+                "(record not interpreted: frame + isometry by absorb + derived record rule), gate_with_auto_swap, "
+                "gate_with_submpo, gate_nonlocal, the gate_TN_1D dispatcher and TensorNetwork1DVector.gate, apply_swap / "
+                "apply_controlled_gate(_mps) of circuit/gates.py, CircuitBase._apply_gate and the methods of CircuitMPS / "
+                "CircuitPermMPS / CircuitMPSLazy that touch gate_opts['info'] (plus apply_gates with the class invariant as "
+                "loop invariant and partial_trace / get_psi, by dynamic class of the receiver): class invariant "
+                "Sound(gate_opts.info, _psi).")
